@@ -14,6 +14,7 @@ from fractions import Fraction
 from .facts import kids, strip
 
 U64 = 1 << 64
+from .config import DRIVERS as _DRIVERS  # noqa: E402
 
 
 class OutOfFragment(Exception):
@@ -269,6 +270,18 @@ def convert(v, it):
     return v
 
 
+def _is_const(n):
+    while n is not None:
+        if n.get("cv") is not None or n["k"] == "IntegerLiteral":
+            return True
+        if n["k"] in ("ImplicitCastExpr", "ParenExpr", "ConstantExpr", "SubstNonTypeTemplateParmExpr",
+                      "CXXStaticCastExpr", "CXXFunctionalCastExpr") and len(n["ch"]) == 1:
+            n = n["ch"][0]
+            continue
+        return False
+    return False
+
+
 class Interp:
     MAXSTEPS = 400000
 
@@ -290,6 +303,7 @@ class Interp:
             if d["k"] == "fn" and d.get("record") is not None:
                 self.methods.setdefault(d["record"], []).append(d)
         self.trace_arith = []
+        self.executed = set()   # pattern locations of every function evaluated abstractly
 
     # -- lookup -----------------------------------------------------------------------
     def func(self, decl_id):
@@ -341,6 +355,7 @@ class Interp:
         if len(self.frames) > 60:
             raise OutOfFragment("recursion too deep in %s" % f.qn)
         frame = {"__this__": this, "__fn__": f}
+        self.executed.add(f.pkey)
         params = f.decl["params"]
         if len(args) < len(params):
             raise OutOfFragment("default arguments not modelled in call to %s" % f.qn)
@@ -358,6 +373,10 @@ class Interp:
             return None
         except _Return as r:
             return r.v
+        except (ModelUB, Thrown) as ex:
+            if getattr(ex, "site", None) is None and f.in_repo():
+                ex.site = (f.pkey, f.pqn, f.qn)  # innermost repository function on the stack
+            raise
         finally:
             self.frames.pop()
 
@@ -603,6 +622,12 @@ class Interp:
             return Vec()
         if t0.startswith("std::array<"):
             n = int(t0.rstrip(">").rsplit(",", 1)[1].strip().rstrip("UL"))
+            et = t0[len("std::array<"):].rsplit(",", 1)[0].strip()
+            rec = self.find_record(et) if not et.startswith("std::") else None
+            if rec is not None:
+                dc = [d for d in self.methods.get(rec["id"], ()) if d.get("defaultctor") and not d.get("deleted")]
+                if dc:
+                    return Arr([self.construct(dc[0], []) for _ in range(n)])
             return Arr([UNINIT] * n)
         if t0.startswith("std::shared_ptr<"):
             return SharedPtr(None)
@@ -692,10 +717,25 @@ class Interp:
 
     def ev_InitListExpr(self, e):
         t = self.T(e).replace("const ", "")
+        rec = self.find_record(t) if not t.startswith("std::") else None
+        if rec is not None:
+            # aggregate initialisation of a library class (operators are empty aggregates with a base class)
+            o = Obj(rec["qn"], rec)
+            ch = kids(e)
+            nb = len(rec.get("bases", ()))
+            flds = rec.get("fields", ())
+            for fd in flds:
+                o.fields[fd["name"]] = UNINIT
+            for fd, c in zip(flds, ch[nb:]):
+                v = self.ev(c)
+                o.fields[fd["name"]] = val(v) if self._is_construct(c) else copy_value(v)
+            return o
         items = [copy_value(self.ev(c)) for c in kids(e)]
+        if t.endswith("]"):
+            return Arr(items)
         if t.startswith("std::array<") and len(items) == 1 and isinstance(items[0], Arr):
             return items[0]
-        if t.endswith("]") or t.startswith("std::array<"):
+        if t.startswith("std::array<"):
             return Arr(items)
         if len(items) == 1:
             return items[0]
@@ -725,7 +765,7 @@ class Interp:
             if d["qn"] == "std::nullopt":
                 return NULLOPT
             if d.get("kind") == "EnumConstant":
-                return ("enum", d["qn"], d.get("value"))
+                return int(d.get("value"))
             if d["k"] == "fn":
                 return ("fnref", d["id"])
         raise OutOfFragment("reference to %s" % (d["qn"] if d else e.get("n")))
@@ -900,8 +940,7 @@ class Interp:
         if op in ("*", "/", "%", "<<", ">>", "&", "|", "^"):
             if isinstance(x, int) and isinstance(y, int) and e.get("cv") is not None:
                 return int(e["cv"])
-            if isinstance(x, int) and isinstance(y, int) and ((a is not None and a.get("cv") is not None) or
-                                                               (b is not None and b.get("cv") is not None)) \
+            if isinstance(x, int) and isinstance(y, int) and (_is_const(a) or _is_const(b)) \
                     and op in ("*", "/", "%"):
                 # scaling by a compile-time constant: allowed only where flagged by the caller
                 if not getattr(self, "allow_const_scaling", False):
@@ -1017,6 +1056,8 @@ class Interp:
                 return vals[0].copy()
             if not vals:
                 return self.default_value(rq)
+            if all(isinstance(v, Sc) for v in vals):
+                return Arr(list(vals))
             raise OutOfFragment("array constructor from %r" % (vals,))
         if rq.startswith("__gnu_cxx::__normal_iterator<") or rq.startswith("std::reverse_iterator<"):
             if vals and isinstance(vals[0], Iter):
@@ -1047,7 +1088,7 @@ class Interp:
         d = ci.decl
         qn = d["qn"]
         f = self.func(d["id"]) if (d.get("inroot") or qn.startswith("bspline::")) else None
-        if f is not None and (f.in_repo() or f.decl.get("lambdaop")):
+        if f is not None and (f.in_repo() or f.decl.get("lambdaop") or f.decl["pfile"].startswith(_DRIVERS)):
             this = None
             if ci.obj is not None:
                 o = self.ev(ci.obj)
@@ -1303,6 +1344,18 @@ class Interp:
                 x, y = V
                 if isinstance(x, (Iter, int)) and isinstance(y, (Iter, int)):
                     return self.binop(op, x, y, e)
+            if qn.startswith("boost::math::quadrature::gauss<") and name == "integrate":
+                # Gauss-Legendre quadrature of a callable over [a, b]: the result is built from the integrand's
+                # values at nodes inside [a, b] (dependence model; Boost's tables are constants)
+                fn, a_, b_ = V[0], V[1], V[2]
+                x = Sc(None, a_.deps | b_.deps)
+                if not isinstance(fn, Closure):
+                    raise OutOfFragment("integrand is not a lambda")
+                ff = self.func(fn.callop)
+                r = val(self.call(ff, fn, [box(x)]))
+                if not isinstance(r, Sc):
+                    raise OutOfFragment("integrand value %r" % (r,))
+                return Sc(None, r.deps | a_.deps | b_.deps)
             if base in ("std::begin", "std::cbegin"):
                 return Iter(V[0], 0)
             if base in ("std::end", "std::cend"):
@@ -1481,4 +1534,4 @@ class Interp:
         if isinstance(o, Closure) and name == "operator()":
             f = self.func(o.callop)
             return self.call(f, None, A)
-        raise OutOfFragment("call to %s" % qn[:100])
+        raise OutOfFragment("call to %s on %r with %r (line %s)" % (qn[:100], o, V[:3], e.get("l")))
